@@ -147,7 +147,8 @@ var commitCmd = &cobra.Command{
 			return fmt.Errorf("%w: %s", ErrIOHandling, dirName)
 		}
 
-		if len(files) == 0 { // no commit before
+		// (HEAD may also name a branch which has no commit although other branches have: no commit before on this branch)
+		if len(files) == 0 || client.Head.Commit == nil { // no commit before
 			if client.Idx.EntryNum == 0 {
 				return ErrNothingToCommit
 			}
